@@ -1,10 +1,10 @@
 // C01 harness: Interpolation::Interpolate / Derivative, Interpolation_2D::Interpolate on the real library.
 //
-//   c01.eval  <xs> <ys> <xdim> <fdim> <pref> <mul> <M> (<x> <code>)^M     (in-process)
+//   c01.eval  <tag> <xs> <ys> <xdim> <fdim> <pref> <mul> <M> (<x> <code>)^M     (in-process)
 //   c01.evalx (same, forked: the request may stop the process)
 //        code -1: Interpolate(x) through operator() ; code k >= 0: Derivative(x,k)
 //        answer: ok <value>^M
-//   c01.eval2 / c01.eval2x  <xs> <ys> <rows> (<row>)^rows <xdim> <ydim> <fdim> <pref> <mul> <M> (<x> <y>)^M
+//   c01.eval2 / c01.eval2x  <tag> <xs> <ys> <rows> (<row>)^rows <xdim> <ydim> <fdim> <pref> <mul> <M> (<x> <y>)^M
 //        answer: ok <value>^M
 #define HZ_MAIN
 #include "common.hpp"
@@ -25,6 +25,7 @@ std::string handle(const std::string& op, Args& a)
 {
 	if(op == "c01.eval" || op == "c01.evalx")
 	{
+		a.tok();	// family tag (used by the comparator only)
 		auto xs		= a.dbls();
 		auto ys		= a.dbls();
 		double xdim = a.dbl(), fdim = a.dbl(), pref = a.dbl(), mul = a.dbl();
@@ -52,6 +53,7 @@ std::string handle(const std::string& op, Args& a)
 	}
 	if(op == "c01.eval2" || op == "c01.eval2x")
 	{
+		a.tok();	// family tag
 		auto xs		= a.dbls();
 		auto ys		= a.dbls();
 		size_t rows = a.u64();
